@@ -130,6 +130,18 @@ class RecvTask(Task):
                 return socket_recv_model(I, args)
             return NotImplemented
         c.env_call = env_call
+
+        # clocks: adversarial, non-decreasing (inter-chunk delays are arbitrary; the property allows any delay below
+        # the network timeout, so recv itself must not give up on elapsed time between chunks)
+        def clock(I, args, kw):
+            g = I.ghost
+            t = I.fresh("real", "clock")
+            if "clock" in g:
+                I.assume(t.e >= g["clock"])
+            g["clock"] = t.e
+            return t
+        for nm in ("time.monotonic", "time.time", "time.perf_counter"):
+            c.ext_models[nm] = clock
         return c
 
     def body(self, I):
